@@ -30,7 +30,8 @@ impl<V> FlexChild<V> {
 
     pub fn flex(self, flex: f64) -> Self {
         Self {
-            flex: Some(flex),
+            // only finite positive values are valid flex factors
+            flex: (flex.is_finite() && flex > 0.0).then_some(flex),
             ..self
         }
     }
@@ -219,7 +220,7 @@ impl<'a> Flex<'a> {
     ) {
         self.children.push(FlexChild {
             view: child.into_view().boxed(),
-            flex: flex.and_then(|flex| (flex > 0.0).then_some(flex)),
+            flex: flex.and_then(|flex| (flex.is_finite() && flex > 0.0).then_some(flex)),
             face,
             align,
         });
@@ -275,7 +276,12 @@ impl<'a> Flex<'a> {
                             align: Align::default(),
                         })
                     } else {
-                        let flex = value.get("flex").map(f64::deserialize).transpose()?;
+                        // only finite positive values are valid flex factors
+                        let flex = value
+                            .get("flex")
+                            .map(f64::deserialize)
+                            .transpose()?
+                            .filter(|flex| flex.is_finite() && *flex > 0.0);
                         let align = value
                             .get("align")
                             .map(Align::deserialize)
